@@ -58,8 +58,8 @@ def run(tier):
     gitr += [{"cmd": "push", "at": 1, "after": False,
               "also": [{"cmd": "ls-remote", "at": 1}, {"cmd": "fetch", "at": 1}]},
              {"cmd": "push", "at": 1, "after": False, "also": [{"cmd": "ls-remote", "at": 1}]}]
-    if not thorough:     # ~7 s per sequence
-        gitr = gitr[::4] + gitr[-8:-2:2] + gitr[-2:]
+    if not thorough:     # ~7 s per sequence (x2: restarted and long-lived handle)
+        gitr = gitr[1::5] + gitr[-8:-2:3] + gitr[-2:]
     chain_conform(v, wd, "git-remote-faults", "git-remote",
                   fault_behaviours("git-remote", gitr, ("h1", "h2")), git_wrap=True)
     http = [{"at": 1, "after": a} for a in (False, True)]
